@@ -5,7 +5,7 @@ from core import hx, unhx
 
 LEAN_MODULE = 'QM.Props.C19Run'
 THEOREMS = ['Parse.C19_serialisers', 'Cv.C19_dry_run_touches_nothing', 'Cv.C19_dry_run_ignores_the_world', 'Cv.C19_prints_what_a_run_writes',
-            'Cv.C19_same_errors', 'Cv.C19_same_exit', 'Cv.C19_errors_modulo_io', 'Cv.C19_paired', 'Cv.run_services']
+            'Cv.C19_same_errors', 'Cv.C19_same_exit', 'Cv.C19_errors_modulo_io', 'Cv.C19_paired', 'Cv.run_services', 'Cv.C19_dry_run_leaves_outdir_empty']
 ASSUMPTIONS = [
     'Parse.printUnit / Parse.writeChunks model to_string / write_to (two separately written serialisers); tied to the code by the unit-script correspondence (to_string and write_to of the same unit after random mutation scripts)',
     'Cv.process (QM/Run.lean) models the whole of process(): loading, drop-ins, the early return, creation of the output directory, the conversion loop and per unit the --dry-run branch or generate_service_file + enable_service_file, as a list of effects and a list of errors; the answers of the file system are a parameter (World). It is tied to the code by running the binary with --dry-run and normally on the same generated trees (with a directory or /dev/full in the place of a service file, or a file in the place of the output directory) and comparing exit status, errors with their paths, printed texts, written files and the links that exist afterwards',
